@@ -8,11 +8,16 @@ plus "elapsed > budget" scripted through a fake perf_counter).  Everything runs 
 Legs
   G  gate matrix      allow x plan-flag{none,plan,stash,both} x dry-run x t4 on/off x backend x cap x limit x world
   I  inputs           gate open, no fault: utterances x snippet lists x summary_tokens x ops cap x backend menu
-  F  faults           gate open: fault plan x reflect kind (real / scripted k entries) x cap x index kind
+  F  faults           gate open: fault plan x reflect kind (real / scripted k entries) x cap x index kind; the elapsed-time
+                      script includes passes that are NOT a whole number of milliseconds (over the budget by 1/8, 1/4, 3/4 ms,
+                      under it by 3/4 ms): the budget is an int of ms, the clock a float of seconds
   P  purity           groups of cases that agree on (agent, turn, slot, text) and differ in everything else
   H  histories        sequences of planner answers on ONE state; each turn = real LLM planner facade (run_policy with the
                       real fixture adapter / validator, which is what produces the stashed request) + run_turn; the gate
-                      of turn i must follow turn i's plan, whatever earlier turns requested
+                      of turn i must follow turn i's plan, whatever earlier turns requested; the VALUE of the planner's
+                      `reflection` key runs over every spelling class the output contract names (JSON bool, int 0/1,
+                      boolean-like strings of either polarity in any case / padding, null, "") and both accepted framings
+                      (raw JSON, one fenced json block)
   E  environment      every turn execution runs under a scripted process time zone (part of the clock profile); the
                       id/ts table is recomputed in fresh interpreters with other hash seeds and other time zones
   D1 reflect()        direct calls over a larger utterance / snippet-list alphabet (summary clamp, ops cap)
@@ -313,6 +318,31 @@ def _idx_eps(idx) -> Optional[List[str]]:
     return [jkey(e) for e in d["eps"]]
 
 
+def _budget_of(c: dict):
+    return c["budget"] if c["budget"] is not None else DEFAULT_BUDGET
+
+
+# The elapsed time the engine can measure for a pass that is scripted to take `delay` ms lies in
+# [delay, delay + CLOCK_READS_SLACK * (largest per-read step of any clock profile)]: the scripted clocks advance by a fixed
+# step on every read, and an implementation may read its clock a few times around the pass.  A case is in the alphabet
+# only when that whole interval is on ONE side of the budget, at least TIMING_MARGIN_MS away from it.
+TIMING_MARGIN_MS = 0.125
+CLOCK_READS_SLACK = 2
+
+
+def over_budget(c: dict) -> bool:
+    """True: every admissible measurement of this case's pass exceeds the wall budget; False: none does."""
+    budget = _budget_of(c)
+    lo = float(c["delay"])
+    hi = lo + CLOCK_READS_SLACK * 1000.0 * max(PROFILES[p][1] for p in PROFILES)
+    if lo >= budget + TIMING_MARGIN_MS:
+        return True
+    if hi <= budget - TIMING_MARGIN_MS:
+        return False
+    raise HarnessError("timing alphabet: delay %r ms is not clearly on one side of budget %r ms (measurable elapsed in [%r, %r])"
+                       % (c["delay"], budget, lo, hi))
+
+
 def fault_legs(c: dict) -> set:
     legs = set()
     for f in c["faults"]:
@@ -333,8 +363,7 @@ def fault_legs(c: dict) -> set:
         kind = c["backend"].split(":")[1]
         if kind != "present" or COMPLETIONS[int(c["backend"].split(":")[2])] == "":
             legs.add("compute")       # fixture missing / unreadable / disabled / empty completion
-    budget = c["budget"] if c["budget"] is not None else DEFAULT_BUDGET
-    if c["delay"] > budget:
+    if over_budget(c):
         legs.add("compute")           # elapsed > budget
     return legs
 
@@ -351,9 +380,8 @@ def fault_label(c: dict) -> str:
             parts.append("fixture-" + kind)
         elif COMPLETIONS[int(c["backend"].split(":")[2])] == "":
             parts.append("fixture-empty-completion")
-    budget = c["budget"] if c["budget"] is not None else DEFAULT_BUDGET
-    if c["delay"] > budget:
-        parts.append("timeout")
+    if over_budget(c):
+        parts.append("timeout" if c["delay"] - _budget_of(c) >= 1 else "timeout-by-less-than-1ms")
     return "+".join(parts) or "none"
 
 
@@ -761,6 +789,16 @@ def _faults_menu(excs: List[str], thorough: bool) -> List[dict]:
     for budget, delays in ((5, (0, 4, 6, 1000)), (None, (1000, 7000)), (1, (0, 2))):
         for d in delays:
             items.append({"budget": budget, "delay": d})
+    # elapsed times that are NOT whole milliseconds, on both sides of the budget: the clock is a float of seconds, the
+    # budget an int of milliseconds - over by 1/8, 1/4, 3/4 ms (below and above the next half / whole ms), under by 3/4
+    for budget, delays in ((5, (4.25, 5.125, 5.25, 5.75)), (1, (0.25, 1.25))):
+        for d in delays:
+            items.append({"budget": budget, "delay": d})
+    if thorough:
+        for budget, delays in ((5, (5.375, 5.5, 6.5)), (1, (1.125, 1.75, 2.5)), (None, (5999.25, 6000.125, 6000.25, 6000.75)),
+                               (2, (1.25, 2.25, 2.5))):
+            for d in delays:
+                items.append({"budget": budget, "delay": d})
     if thorough:
         x = "RuntimeError"
         items.append({"faults": [{"site": "add", "exc": x, "at": [1]}, {"site": "log:append", "exc": x}]})
@@ -906,7 +944,9 @@ def _turn_worker(chunk, st: Stats, scratch_root: str):
                     st.add("n_fault_cases_armed")
                     if o0["fired"]:
                         st.add("n_fault_cases_fired")
-                if c["delay"] > (c["budget"] if c["budget"] is not None else DEFAULT_BUDGET):
+                if c["delay"] != int(c["delay"]):
+                    st.add("n_cases_with_a_sub_millisecond_elapsed_time")
+                if over_budget(c):
                     st.add("n_timeout_cases")
                     if any(str(r.get("reason")) == "reflection_timeout" for r in o0["refl"]):
                         st.add("n_timeout_reason_logged")
@@ -943,8 +983,43 @@ PLANNER_ANSWERS: Dict[str, Tuple[Optional[str], bool, bool, bool]] = {
 HIST_LETTERS_QUICK = ["T", "F", "N", "badjson", "nofx", "nofile"]
 HIST_LETTERS_ALL = list(PLANNER_ANSWERS)
 
+# ---- the VALUE of the optional `reflection` key, over every spelling class the planner-output contract names
+# (policy/sanitize.py: "Optional top-level `reflection` flag is allowed; coerced to bool if given"; rejection text
+# "reflection must be boolean (or 'true'/'false','1'/'0')"; schema: type boolean, default false): JSON booleans, the
+# ints 0/1, boolean-like strings in any case and padding - each polarity - plus the two values that carry no request at
+# all (null, empty string), and the second accepted FRAMING of the whole answer (one fenced ```json block).
+# Letter "R=<json value>" = raw JSON answer, "R~<json value>" = the same answer inside a fenced block.
+# A spelling of "no" never requests reflection, whether an implementation coerces it to false or rejects the output
+# (rejected output = documented fallback plan, which requests nothing); a spelling of "yes" MAY open the gate (counted).
+REFL_VALUES_NO: List[Any] = [0, "false", "0", "no", "f", "n", "False", "FALSE", " false ", "No", "", None]
+REFL_VALUES_YES: List[Any] = [1, "true", "1", "yes", "t", "y", "True", " TRUE ", "Yes"]
+REFL_VALUES_FENCED_NO: List[Any] = [False, "false", "0"]
+REFL_VALUES_FENCED_YES: List[Any] = [True, "true"]
+
+
+def _value_letter(v: Any, fenced: bool = False) -> str:
+    return ("R~" if fenced else "R=") + json.dumps(v)
+
+
+def _value_tag(letter: str) -> str:
+    # two classes only (the concrete value is in the witness text): the value is spelled other than a bare JSON boolean,
+    # or the whole answer is framed as a fenced block
+    return "fenced-answer" if letter[1] == "~" else "spelled-value"
+
+
+for _vals, _req, _fenced in ((REFL_VALUES_NO, False, False), (REFL_VALUES_YES, True, False),
+                             (REFL_VALUES_FENCED_NO, False, True), (REFL_VALUES_FENCED_YES, True, True)):
+    for _v in _vals:
+        _body = '{%s,"reflection":%s}' % (_OKPLAN, json.dumps(_v))
+        PLANNER_ANSWERS[_value_letter(_v, _fenced)] = (("```json\n%s\n```" % _body) if _fenced else _body, _req, False, False)
+VALUE_LETTERS_NO = [_value_letter(v) for v in REFL_VALUES_NO] + [_value_letter(v, True) for v in REFL_VALUES_FENCED_NO]
+VALUE_LETTERS_YES = [_value_letter(v) for v in REFL_VALUES_YES] + [_value_letter(v, True) for v in REFL_VALUES_FENCED_YES]
+VALUE_LETTERS = VALUE_LETTERS_NO + VALUE_LETTERS_YES
+
 
 def _letter_class(letter: str) -> str:
+    if letter[:2] in ("R=", "R~"):
+        return ("requested[%s]" if PLANNER_ANSWERS[letter][1] else "planner-declined[%s]") % _value_tag(letter)
     if letter in ("F", "N"):
         return "planner-declined"
     if letter in ("badjson", "unk", "nofx", "nofile"):
@@ -1157,6 +1232,27 @@ def enumerate_histories(thorough: bool) -> List[dict]:
             add(h, "attr")
         for h in (("T", "badjson", "badjson"), ("T", "nofile", "T"), ("Pl", "F", "nofx"), ("Td", "nofx", "F"), ("Ts", "unk", "F")):
             add(h, "attr")
+    # ---- value spellings / framings of the `reflection` key: alone, and after a turn that reflected
+    for v in VALUE_LETTERS:
+        add((v,), "attr")
+    for v in VALUE_LETTERS_NO:
+        add(("T", v), "attr")
+    if thorough:
+        for v in VALUE_LETTERS:
+            add((v,), "dict")
+            add((v,), "attr", allow=False)
+            for w in HIST_LETTERS_ALL:
+                add((v, w), "attr")
+                if (w, v) != ("T", v) or v not in VALUE_LETTERS_NO:
+                    add((w, v), "attr")
+        for v, w in itertools.product(VALUE_LETTERS_YES, VALUE_LETTERS_NO):
+            add((v, w), "attr")
+    else:
+        for v in (_value_letter("false"), _value_letter("yes"), _value_letter(0)):
+            add((v,), "dict")
+        for v, w in ((_value_letter("yes"), _value_letter("no")), (_value_letter(1), _value_letter("0")),
+                     (_value_letter("true"), _value_letter("false", True))):
+            add((v, w), "attr")
     return cases
 
 
@@ -1185,9 +1281,17 @@ def _history_worker(chunk, st: Stats, scratch_root: str):
                 if reflected_before and not op and not t.get("calls"):
                     st.add("n_hist_closed_after_a_reflecting_turn")
                 reflected_before = reflected_before or bool(t.get("calls"))
+                if t["letter"][:2] in ("R=", "R~"):
+                    st.add("n_hist_turns_with_a_spelled_value")
+                    if PLANNER_ANSWERS[t["letter"]][1] and t.get("calls") and c["allow"]:
+                        st.distinct("spellings_that_opened_the_gate", t["letter"])     # observed, not demanded
+            spelled = any(l[:2] in ("R=", "R~") for l in c["hist"])
+            if spelled:
+                st.add("n_hist_value_spelling_cases")
             if stale_risk:
-                st.add("nontrivial")
                 st.add("n_hist_stale_risk_cases")
+            if stale_risk or (spelled and c["allow"] and c["shape"] == "attr"):
+                st.add("nontrivial")
             for sig, what in res:
                 st.violation(sig, what, case)
             if len(st.samples) < 1 and stale_risk:
@@ -1531,6 +1635,7 @@ def run(run: Run) -> None:
     hcases = enumerate_histories(run.thorough)
     run.notes["cases_leg_H"] = len(hcases)
     run.notes["history_planner_alphabet"] = HIST_LETTERS_ALL if run.thorough else HIST_LETTERS_QUICK + ["(+ Ts unk Pl Td in 5 three-turn histories)"]
+    run.notes["history_reflection_value_spellings"] = {"decline": VALUE_LETTERS_NO, "request": VALUE_LETTERS_YES}
     hcases.sort(key=lambda cs: -len(cs["hist"]))
     run.pmap(_history_worker, hcases, extra=(run.scratch,))
     if not run.n.get("n_hist_stale_risk_cases"):
@@ -1585,11 +1690,17 @@ def run(run: Run) -> None:
                 "planner answers {requests reflection, declines, omits the key, rejected output, no fixture, fixture file "
                 "gone; thorough also boolean-like string, unknown key, Plan.reflection, dry run} on ONE state: in each turn "
                 "the real LLM planner facade run_policy (real fixture adapter and validator) and then run_turn, the gate of "
-                "turn i judged against turn i's plan only; the id/ts table is recomputed in fresh interpreters with other "
+                "turn i judged against turn i's plan only; leg H also runs every spelling of the planner's `reflection` value "
+                "(ints 0/1, boolean-like strings of both polarities in several cases / paddings, null, empty string; raw and "
+                "fenced-json framing) alone and after a reflecting turn (thorough: paired with every planner answer in both "
+                "orders, and every request-spelling followed by every decline-spelling); leg F scripts elapsed times on "
+                "both sides of the wall budget including fractions of a millisecond (budget +1/8, +1/4, +3/4 ms, budget "
+                "-3/4 ms; thorough more, incl. half-millisecond ties and the default budget); "
+                "the id/ts table is recomputed in fresh interpreters with other "
                 "hash seeds and other time zones; D1/D2 call reflect()/write_reflection_entries directly. non-trivial = "
                 "open gate and reflect() actually ran, or closed gate with at least one gate input set; H: a turn that does "
-                "not request reflection follows one that reflected; D1: limit < 128 or cap 0; D2: more entries than cap "
-                "or a failing add")
+                "not request reflection follows one that reflected, or a turn whose reflection value is spelled other than "
+                "a bare JSON boolean; D1: limit < 128 or cap 0; D2: more entries than cap or a failing add")
     run.assume("leg H: the planner facade runs in every turn before run_turn on the same state object (what a driver of the "
                "LLM planner does); histories where a driver stops calling the planner are not in the space - the statement "
                "does not say who clears a request then. 'requested by the plan' for a turn whose planner output is rejected "
@@ -1607,7 +1718,16 @@ def run(run: Run) -> None:
                "entries may still be added after one failed index.add is not stated by the property (the repo's own writer test pins "
                "continue-after-failure), so it is counted (n_cases_add_continued_after_a_failed_add) but not judged")
     run.assume("exception alphabet = subclasses of Exception; BaseException (KeyboardInterrupt/SystemExit) not injected")
-    run.assume("elapsed == budget exactly is not in the alphabet (the statement does not say which side the boundary is on)")
+    run.assume("elapsed vs budget: the pass is scripted to take a given time on the engine's own clock (perf_counter of the "
+               "time module the orchestrator uses); 'timeout' = that time exceeds scheduler.budgets.time_ms_reflection (int ms) by "
+               "at least 1/8 ms, 'within budget' = at most budget - 1/8 ms even if the engine reads the advancing clock twice "
+               "more; elapsed == budget exactly and excesses below 1/8 ms are not in the alphabet (the statement names neither "
+               "the side of the boundary nor a clock resolution)")
+    run.assume("planner `reflection` value: a spelling of 'no' (false, 0, 'false', '0', 'no', 'f', 'n' in any case / padding), "
+               "null and the empty string never request reflection - whether the validator coerces them or rejects the output "
+               "(rejected output = fallback plan, which requests nothing); a spelling of 'yes' may open the gate (counted in "
+               "spellings_that_opened_the_gate, not demanded); values outside the documented table (2, 'on', 1.0, lists) are "
+               "not in the alphabet because the contract does not say whether they request anything")
 
 
 def replay(case):
